@@ -21,12 +21,32 @@ def gen_decls(rng):
     ch = lambda t, *p: step("child", t, *p)
     at = lambda t, *p: step("attribute", t, *p)
     matches = [P(ch(t_name("a"))), P(ch(t_name("b"))), P(ch(T_ANY)), P(at(t_name("x"))), P(at(T_ANY)), P(ch(t_name("a")), ch(t_name("b"))),
-               bin_("|", P(ch(t_name("b"))), P(ch(t_name("c")))), P(ch(T_ANY, P(at(t_name("x"))))), P(ch(T_TEXT)), P(ch(t_name("c")))]
+               bin_("|", P(ch(t_name("b"))), P(ch(t_name("c")))), P(ch(T_ANY, P(at(t_name("x"))))), P(ch(T_TEXT)), P(ch(t_name("c"))),
+               # every node kind a key can index: comments, processing instructions, any child node, mixed unions
+               P(ch(T_COMMENT)), P(ch(t_pi())), bin_("|", P(ch(T_TEXT)), P(ch(T_COMMENT))), bin_("|", P(ch(t_pi())), P(at(T_ANY))), P(ch(T_ANY), ch(T_TEXT))]
     uses = [P(at(t_name("x"))), P(at(T_ANY)), P(step("self", T_NODE)), P(ch(T_ANY)), P(ch(T_TEXT)), fn("name"), fn("string", P(at(t_name("y")))),
-            P(ch(t_name("b"))), fn("count", P(ch(T_ANY))), fn("concat", P(at(t_name("x"))), lit("")), P(step("parent", T_NODE), at(t_name("x"))), lit("t")]
-    names = ["k", "k", "j"]
+            P(ch(t_name("b"))), fn("count", P(ch(T_ANY))), fn("concat", P(at(t_name("x"))), lit("")), P(step("parent", T_NODE), at(t_name("x"))), lit("t"),
+            # current() inside use is the node being indexed (12.2); values that are numbers
+            path([at(t_name("x"))], start=fn("current")), fn("string-length", P(step("self", T_NODE))), fn("local-name", P(step("parent", T_NODE, abbr=False))),
+            fn("count", P(step("preceding-sibling", T_NODE, abbr=False)))]
+    # key names: k, j; N = a QName key whose prefix differs between declaration and use (same expanded name); O = same local name in another namespace
+    names = ["k", "k", "j", "N", "O"]
     n = rng.randint(1, 3)
-    return [{"name": rng.choice(names) if i else "k", "match": rng.choice(matches), "use": rng.choice(uses)} for i in range(n)]
+    return [{"name": rng.choice(names) if i else rng.choice(["k", "k", "N"]), "match": rng.choice(matches), "use": rng.choice(uses),
+             "mod": rng.choice(["main", "main", "imp"])} for i in range(n)]
+
+
+KEY_NS = 'xmlns:n="urn:key-ns" xmlns:m="urn:key-ns" xmlns:o="urn:other-key-ns"'
+
+
+def key_qname(name, rng):
+    """lexical form of a key name in the stylesheet: N is written n:k or m:k (two prefixes of one namespace), O is o:k"""
+    return {"N": rng.choice(["n:k", "m:k"]), "O": "o:k"}.get(name, name)
+
+
+def key_spec_name(name):
+    """the expanded name the definition compares (Clark notation for the namespaced ones)"""
+    return {"N": "{urn:key-ns}k", "O": "{urn:other-key-ns}k"}.get(name, name)
 
 
 def gen_lookups(rng, n, decls):
@@ -53,14 +73,22 @@ def gen_lookups(rng, n, decls):
     return out
 
 
-def render(decls, lookups):
-    lines = ['<xsl:stylesheet version="1.0" %s>' % XSLNS]
+def render(decls, lookups, rng=None):
+    """-> (main.xsl text, line map, imp.xsl text or None).  Declarations marked imp live in an imported module: 12.2 takes ALL
+    xsl:key declarations of the stylesheet, whatever their import precedence."""
+    rng = rng or random.Random(0)
+    has_imp = any(d.get("mod") == "imp" for d in decls)
+    lines = ['<xsl:stylesheet version="1.0" %s %s>' % (XSLNS, KEY_NS)]
+    imp = ['<xsl:stylesheet version="1.0" %s %s>' % (XSLNS, KEY_NS)]
+    if has_imp:
+        lines.append('<xsl:import href="imp.xsl"/>')
     for d in decls:
-        lines.append('<xsl:key name="%s" match=%s use=%s/>' % (d["name"], quoteattr(xpgen.render(d["match"])), quoteattr(xpgen.render(d["use"]))))
+        (imp if d.get("mod") == "imp" else lines).append('<xsl:key name="%s" match=%s use=%s/>' % (key_qname(d["name"], rng), quoteattr(xpgen.render(d["match"])), quoteattr(xpgen.render(d["use"]))))
+    imp.append('</xsl:stylesheet>')
     lines.append('<xsl:template match="/">')
     lmap = {}
     for i, lk in enumerate(lookups):
-        sel = "key('%s', %s)" % (lk["name"], xpgen.render(lk["arg"]))
+        sel = "key('%s', %s)" % (key_qname(lk["name"], rng), xpgen.render(lk["arg"]))
         argsel = xpgen.render(lk["arg"])
         ctx = "/" if lk["where"] == "main" else "document('other.xml')"
         # the argument is observed separately (same context) so that the spec is given the actual argument value
@@ -68,7 +96,7 @@ def render(decls, lookups):
         lmap[len(lines)] = i
     lines.append('</xsl:template>')
     lines.append('</xsl:stylesheet>')
-    return "\n".join(lines) + "\n", lmap
+    return "\n".join(lines) + "\n", lmap, ("\n".join(imp) + "\n") if has_imp else None
 
 
 def run(res, tier, seed):
@@ -90,8 +118,10 @@ def run(res, tier, seed):
         for lks in orders:
             cdir = os.path.join(wd, "case%d" % k)
             os.makedirs(cdir)
-            text, lmap = render(decls, lks)
+            text, lmap, imptext = render(decls, lks, rng)
             open(os.path.join(cdir, "main.xsl"), "w").write(text)
+            if imptext:
+                open(os.path.join(cdir, "imp.xsl"), "w").write(imptext)
             open(os.path.join(cdir, "in.xml"), "w").write(c02.doc_xml(docs[d1]))
             open(os.path.join(cdir, "other.xml"), "w").write(c02.doc_xml(docs[d2]))
             cases.append({"id": k, "dir": cdir, "trace": "none", "select": True})
@@ -128,7 +158,7 @@ def run(res, tier, seed):
             def mapdoc(n):
                 return [{1: d1 + 1, 2: d2 + 1}[n[0]], n[1], 0]
             events.append({"e": "Reset", "case": c["id"]})
-            events.append({"e": "Keys", "decls": [{"name": xdm.cps(d["name"]), "match": xpgen.strip_render_only(d["match"]), "use": xpgen.strip_render_only(d["use"])} for d in decls],
+            events.append({"e": "Keys", "decls": [{"name": xdm.cps(key_spec_name(d["name"])), "match": xpgen.strip_render_only(d["match"]), "use": xpgen.strip_render_only(d["use"])} for d in decls],
                            "sample": sample})
             sel = [e for e in evs if e["e"] == "S" and e["el"] == "xsl:variable"]
             if len(sel) != 2 * len(lks):
@@ -142,7 +172,7 @@ def run(res, tier, seed):
                 if r["val"]["t"] != "ns":
                     raise vlib.Infra("key() did not return a node-set")
                 ctxn = mapdoc(r["node"])
-                events.append({"e": "Key", "doc": ctxn[0], "ctx": ctxn[1], "name": xdm.cps(lk["name"]), "arg": arg, "argtext": xpgen.render(lk["arg"]),
+                events.append({"e": "Key", "doc": ctxn[0], "ctx": ctxn[1], "name": xdm.cps(key_spec_name(lk["name"])), "arg": arg, "argtext": xpgen.render(lk["arg"]),
                                "result": [mapdoc(x) for x in r["val"]["v"]]})
                 nlook += 1
                 if r["val"]["v"]:
@@ -169,7 +199,7 @@ def run(res, tier, seed):
             res.violation("%s | %s" % (ev.get("argtext"), rj["msg"][:200]), [execs[e][0], execs[e][1], ev])
     res.cov["traces_validated_against_impl"] = nexec - len(bad)
     res.cov["distinct_nontrivial"] = len(nontriv)
-    res.cov["rule"] = ("seeded xsl:key declaration sets (1-3, a name possibly declared twice, 10 match patterns x 12 use expressions) x 2 documents (main + document('other.xml')) x "
+    res.cov["rule"] = ("seeded xsl:key declaration sets (1-3, a name possibly declared twice, a QName key name written with two prefixes of one namespace, the same local name in another namespace, declarations in an imported module; 15 match patterns over every node kind x 16 use expressions incl. current()) x 2 documents (main + document('other.xml')) x "
                        "lookup sequences of 2-5 key() calls with string / node-set / number arguments, each sequence in given, reversed and shuffled order; non-trivial = the lookup "
                        "returned at least one node; distinct by (declarations, key name, argument, context document, documents)")
     for ex in execs[:2]:
